@@ -1,11 +1,14 @@
 """C01 - signed digests equal the consensus sighash."""
-CONTRACT_MODULES = ['contracts.encoding', 'contracts.transactions']
+CONTRACT_MODULES = ['contracts.encoding', 'contracts.scripts', 'contracts.transactions']
+def _script_code():
+    import contracts.transactions as t
+    return list(t.SCRIPT_CODE_CASES)
 CONTRACTS = (['bitcoinlib.transactions.Transaction.signature_segwit[in%d-out%d-sign%d]' % (a, b, c) for a in (1, 2, 3) for b in (0, 1, 2, 3) for c in range(a)]
              + ['bitcoinlib.transactions.Transaction.raw[legacy-%s-in%d-out%d-sign%d]' % (st, a, b, c) for a in (1, 2, 3) for b in (0, 1, 2) for c in range(a)
                 for st in ('sig_pubkey', 'p2sh_multisig')]
              + ['bitcoinlib.transactions.Transaction.signature_hash[dispatch-tx_%s-arg_%s]' % ab for ab in
                 [('segwit', None), ('segwit', 'segwit'), ('segwit', 'p2sh-segwit'), ('segwit', 'legacy'), ('legacy', None), ('legacy', 'legacy')]]
-             + ['bitcoinlib.encoding.varstr', 'bitcoinlib.encoding.int_to_varbyteint'])
+             + ['bitcoinlib.encoding.varstr', 'bitcoinlib.encoding.int_to_varbyteint'] + _script_code())
 LEVEL = 'proof'
 LEVEL_TEXT = ('Transaction.signature_segwit is verified against the BIP143 preimage (every hash-type byte) and Transaction.raw(sign_id, SIGHASH_ALL, '
               'legacy) against the legacy SIGHASH_ALL preimage, for every value of every field (ids, vouts, sequences, amounts up to 21e14, scripts of '
@@ -13,10 +16,10 @@ LEVEL_TEXT = ('Transaction.signature_segwit is verified against the BIP143 preim
               'BOUNDED in the NUMBER of inputs/outputs: one contract case per count (1..3 inputs x 0..3 outputs x every signed index), loops '
               'unrolled; counts beyond that (and CompactSize count boundaries) rest on the uniform loop body and on C18 for the count prefix. '
               'One BIP143 defect (SINGLE/NONE swapped) was repaired; the varstr(00) finding propagates here and is pinned exactly.')
-LEVEL_NOTE = ('SHA-256 uninterpreted; spec/sighash.py is the statement of consensus (BIP143 text, developer reference). The script code per input kind '
-              '(what Input.update_scripts puts into redeemscript / locking_script) is NOT verified here: the contracts take the stored script as '
-              'given. Object state left by earlier calls is covered only by native stateful contract evaluation (earlier call + in-place edit).')
-NOT_COVERED = ['script code construction per input kind (Input.update_scripts)', 'more than 3 inputs / outputs (loop bodies are uniform; not proved inductively)',
+LEVEL_NOTE = ('SHA-256 uninterpreted; spec/sighash.py is the statement of consensus (BIP143 text, developer reference). The script code per input kind is '
+              'verified separately on Input.update_scripts (P2PKH / P2WPKH / P2SH-P2WPKH with one key; P2SH, P2WSH, P2SH-P2WSH multisig with 2 and 3 keys): '
+              'the preimage contracts take the stored script as given, the update_scripts contracts show it is the script consensus expects. Object state left by earlier calls is covered only by native stateful contract evaluation (earlier call + in-place edit).')
+NOT_COVERED = ['P2PK and bare multisig script codes; multisig with more than 3 keys in update_scripts', 'more than 3 inputs / outputs (loop bodies are uniform; not proved inductively)',
                'legacy hash types other than SIGHASH_ALL (the property names SIGHASH_ALL only)']
 TRUSTED = ['spec/sighash.py', 'sha256 as uninterpreted function', 'varstr effective contract (C18, F-varstr-00 pinned)']
 FUZZ_QUICK = 120
